@@ -3,7 +3,7 @@ import json, os
 from vlib import core
 
 THEOREMS = ["Props.C18." + t for t in [
-    "facts_current", "deep_equal_iff_partial", "deep_equal_no_false_negative", "deep_equal_refl", "spec_symmetric", "deep_equal_symm_partial", "deep_equal_identical", "deep_equal_nil_safe",
+    "facts_current", "deep_equal_iff_partial", "deep_equal_iff_repaired", "deep_equal_no_false_negative", "deep_equal_refl", "spec_symmetric", "deep_equal_symm_partial", "deep_equal_identical", "deep_equal_nil_safe",
     "validate_set_iff", "validate_set_write", "write_eq_std",
     "deep_equal_iff_fails_missing_key", "deep_equal_iff_fails_struct_key", "deep_equal_iff_fails_optional_binary",
     "deep_equal_not_symmetric", "validate_set_rejects_distinct"]]
@@ -20,6 +20,7 @@ def run(ctx):
                         "apache/thrift v0.13.0 TBinaryProtocol = Core.Wire primitives (as C02); Go reflect in the driver"]
     ctx.partial += ["deep_equal_iff is FALSE on the current tree (three defect classes, each with a `decide`d witness replayed on the generated code); "
                     "deep_equal_iff_partial holds for pairs whose maps, met in lockstep, have equal key sets of base type and that do not pit an unset optional binary against an empty one",
+                    "deep_equal_iff_repaired: for the template AFTER the planned repair (Facts.commaOk) the statement holds on every well-shaped pair (no key-set hypothesis); it still excludes non-empty struct-keyed maps and the optional-binary clash",
                     "deep_equal_symm_partial / deep_equal_refl carry the same kind of hypothesis; deep_equal_not_symmetric is the residue",
                     "validate_set_iff is exact for the comparison the template uses; 'two equal elements' in the sense of valEq only under deep_equal_iff_partial's hypothesis (validate_set_rejects_distinct is the witness)"]
     if exe:
